@@ -241,7 +241,7 @@ c02_stream!(c02_rm_q2b3_trailing, 12, check_read_message::<_, 2, 3>(conc_reader:
 
 //@ name: c02_rmi_q2b3_exact_split7
 //@ prop: C02
-//@ tier: thorough
+//@ tier: experimental
 //@ timeout: 2400
 //@ clause: read_message_into on a hostile stream never panics; on Ok the buffer holds exactly the frame bytes read from the stream
 //@ funcs: io::read_message_into; io::read_exact; io::try_reserve; Header::decode
@@ -255,6 +255,7 @@ c02_stream!(c02_rmi_q2b3_exact_split7, 55, check_read_message_into::<_, 2, 3>(co
 //@ name: c02_rmi_q2b3_trunc1
 //@ prop: C02
 //@ tier: thorough
+//@ mem: high
 //@ timeout: 2400
 //@ clause: as c02_rmi_q2b3_exact_split7: stream truncated one byte before the frame end
 //@ funcs: io::read_message_into; io::read_exact; io::try_reserve; Header::decode
@@ -270,6 +271,7 @@ c02_stream!(c02_rmi_q2b3_trunc1, 55, check_read_message_into::<_, 2, 3>(conc_rea
 //@ name: c02_rm_q2b3_symbolic_eof
 //@ prop: C02
 //@ tier: thorough
+//@ mem: high
 //@ clause: as c02_rm_q2b3_exact, for every truncation point and every placement/size of one short read
 //@ funcs: io::read_message; io::read_exact; io::try_zeroed_vec; Header::decode; Message::new
 //@ symbolic: 56 stream bytes, EOF position 0..=56, one short read of arbitrary size at an arbitrary call, an I/O error at any call
@@ -283,6 +285,7 @@ c02_stream!(c02_rm_q2b3_symbolic_eof, 12, check_read_message::<_, 2, 3>(sym_read
 //@ name: c02_rm_q0b0_symbolic_eof
 //@ prop: C02
 //@ tier: thorough
+//@ mem: high
 //@ clause: as c02_rm_q2b3_symbolic_eof, header-only frame
 //@ funcs: io::read_message; io::read_exact; io::try_zeroed_vec; Header::decode; Message::new
 //@ symbolic: as c02_rm_q2b3_symbolic_eof
@@ -295,7 +298,7 @@ c02_stream!(c02_rm_q0b0_symbolic_eof, 12, check_read_message::<_, 0, 0>(sym_read
 
 //@ name: c02_rm_q0b8_symbolic_eof
 //@ prop: C02
-//@ tier: thorough
+//@ tier: experimental
 //@ clause: as c02_rm_q2b3_symbolic_eof, empty query and 8-byte body
 //@ funcs: io::read_message; io::read_exact; io::try_zeroed_vec; Header::decode; Message::new
 //@ symbolic: as c02_rm_q2b3_symbolic_eof
@@ -308,7 +311,7 @@ c02_stream!(c02_rm_q0b8_symbolic_eof, 12, check_read_message::<_, 0, 8>(sym_read
 
 //@ name: c02_rm_q5b0_symbolic_eof
 //@ prop: C02
-//@ tier: thorough
+//@ tier: experimental
 //@ clause: as c02_rm_q2b3_symbolic_eof, 5-byte query and empty body
 //@ funcs: io::read_message; io::read_exact; io::try_zeroed_vec; Header::decode; Message::new
 //@ symbolic: as c02_rm_q2b3_symbolic_eof
@@ -321,7 +324,7 @@ c02_stream!(c02_rm_q5b0_symbolic_eof, 12, check_read_message::<_, 5, 0>(sym_read
 
 //@ name: c02_rmi_q0b0_trailing
 //@ prop: C02
-//@ tier: thorough
+//@ tier: experimental
 //@ clause: as c02_rmi_q2b3_exact_split7, header-only frame followed by 8 stray bytes
 //@ funcs: io::read_message_into; io::read_exact; io::try_reserve; Header::decode
 //@ symbolic: as c02_rm_q2b3_exact
@@ -334,6 +337,7 @@ c02_stream!(c02_rmi_q0b0_trailing, 55, check_read_message_into::<_, 0, 0>(conc_r
 //@ name: c02_rmi_q1b7_short_header
 //@ prop: C02
 //@ tier: thorough
+//@ mem: high
 //@ clause: as c02_rmi_q2b3_exact_split7, stream ends inside the header
 //@ funcs: io::read_message_into; io::read_exact; io::try_reserve; Header::decode
 //@ symbolic: as c02_rm_q2b3_exact
@@ -429,6 +433,7 @@ c02_stream!(c02_rmi_unalloc_q1_b2p63, 50, check_unalloc_pinned::<{ 1 }, { 1u64 <
 //@ name: c02_rmi_unalloc_qmax_b0
 //@ prop: C02
 //@ tier: thorough
+//@ mem: high
 //@ clause: a consistent header declaring a size beyond isize::MAX makes read_message_into return an error instead of panicking with "capacity overflow" (the 2^62..2^63 abort class cannot be modelled for this function: it grows an existing buffer through realloc, which Kani does not let a stub fail)
 //@ funcs: io::read_message_into; io::try_zeroed_vec; io::try_reserve; Header::decode
 //@ symbolic: every header bit except magic and the three (consistent) length fields; stream bytes; an I/O error at any read call
